@@ -160,6 +160,10 @@ func lookup(root J, ref string) any {
 
 // firstDiff between two JSON trees ("" when equal).
 func firstDiff(a, b any, path string) string {
+	// where recursion is cut depends on how often the producer unrolled a cycle: a cut on either side matches anything
+	if isCycleCut(a) || isCycleCut(b) {
+		return ""
+	}
 	switch x := a.(type) {
 	case map[string]any:
 		y, ok := b.(map[string]any)
@@ -208,6 +212,11 @@ func firstDiff(a, b any, path string) string {
 		return fmt.Sprintf("%s: %s vs %s", path, short(a), short(b))
 	}
 	return ""
+}
+
+func isCycleCut(v any) bool {
+	m, ok := v.(map[string]any)
+	return ok && m["$cycle"] == true
 }
 
 func short(v any) string {
